@@ -108,10 +108,15 @@ class CB:
                     cands.append(c)
             ok = []
             for c in cands:
+                # the adaptor's OWN closure (named in its type by source position) is the one that calls next_state
+                m = re.search(r'\{closure@([^:}]+):(\d+):', c.targs[0])
                 for cl in self.F.closures_of(b):
-                    if cl.calls_to('Model::next_state'):
-                        ok.append(c)
-                        break
+                    if not cl.calls_to('Model::next_state'):
+                        continue
+                    if m and not (cl.span or '').startswith('%s:%s' % (m.group(1), m.group(2))):
+                        continue
+                    ok.append(c)
+                    break
             if len(ok) != 1:
                 raise AnchorMissing('%s: successor iterator (adaptor over Model::next_state) not found' % b.path)
             self.succ_call = ok[0]
@@ -214,6 +219,16 @@ class CB:
         self.eb_remove = b.calls_to('IdSet::remove')
         self.eb_contains = b.calls_to('IdSet::contains')
         self.eb_insert = b.calls_to('IdSet::insert')
+        # the bits still set may also be walked directly (`for i in ebits.iter()`): the loop head is the bit test,
+        # its Some edge the "bit is set" edge
+        self.eb_iter_heads = []
+        for h in b.calls_to('Iterator::next'):
+            if not h.args:
+                continue
+            sv = noref(b.trace(b.val(h.args[0]), ('IntoIterator::into_iter',)))
+            sc = b.call_at(sv.key) if sv.kind == 'call' and not sv.fields() else None
+            if sc is not None and sc.is_('IdSet::iter'):
+                self.eb_iter_heads.append((h, sc))
         # eventually inserts = discovery inserts control-dependent on IdSet::contains == true
         self.ev_inserts = []
         entry_ins = []
@@ -228,6 +243,12 @@ class CB:
                 if te and b.edges_dominate(te, ins.bb):
                     self.ev_inserts.append((ins, ec))
                     break
+            else:
+                for (h, sc) in self.eb_iter_heads:
+                    te = b.branch(h, 'Some')
+                    if te and b.edges_dominate(te, ins.bb):
+                        self.ev_inserts.append((ins, h))
+                        break
         self.as_inserts = [c for c in self.disc_inserts if c not in [x[0] for x in self.ev_inserts]]
         # --- what one pass over a property does, per kind of property (and per outcome of its condition)
         self._cells = {}
